@@ -274,6 +274,7 @@ impl = "%s"
 emit_impl = "impl Ser for %s"
 name = "serialize"
 id = "%s::serialize"
+properties = ["C03", "C01", "C16"]
 rewrites = ["serret"]
 %s
 impl_pre = \'\'\'
